@@ -402,6 +402,29 @@ Example sts_applied_no_disconnect_record :
   applyStsPolicy 100%Z n (Server [104] 6667 0 false) = (n, Ok (Server [104] 6697 0 true)).
 Proof. vm_compute. reflexivity. Qed.
 
+(* ---- the store and the lookup use the same key: the hostname exactly as the server entry carries it ---- *)
+Lemma dict_get_set_same {A} k (v : A) d : dict_get k (dict_set k v d) = Some v.
+Proof.
+  induction d as [|[k2 w] d IH]; cbn [dict_set dict_get]; [rewrite seq_eqb_refl; reflexivity|].
+  destruct (seq_eqb k k2) eqn:E; cbn [dict_get]; rewrite E; [reflexivity|exact IH].
+Qed.
+(* a policy stored for a host (any spelling: capitals are part of the key) is applied to the next connection to that host *)
+Theorem sts_store_then_apply n h pol now p0 at0 f0 port duration :
+  parseStsPolicy2 pol true = Some (port, duration) ->
+  unexpired now (addStsPolicy n h pol) h duration ->
+  applyStsPolicy now (addStsPolicy n h pol) (Server h p0 at0 f0) = (addStsPolicy n h pol, Ok (Server h port at0 true)).
+Proof.
+  intros Hp Hu. apply (sts_applied now (addStsPolicy n h pol) (Server h p0 at0 f0) pol port duration); [|exact Hp|exact Hu].
+  cbn [sv_host addStsPolicy policies]. apply dict_get_set_same.
+Qed.
+Example sts_store_then_apply_capitals :
+  let h := [73;114;99;46;69;120;97;109;112;108;101;46;79;114;103] in     (* "Irc.Example.Org" *)
+  let pol := s_port ++ [61;54;54;57;55;44] ++ s_duration ++ [61;49;48;48] in
+  map (fun rec => snd rec) (mrun [Server h 6667 0 false; Server h 8000 0 false] (Net [] [], Mixin [] None)
+                                 [MNext 10; MStore h pol; MDisc 20 h; MNext 30; MRestart; MNext 40])
+  = [Ok (Server h 6667 0 false); Ok (Server h 6697 0 true); Ok (Server h 6697 0 true)].
+Proof. vm_compute. reflexivity. Qed.
+
 (* ---- every connection: the ServersMixin state machine over histories ---- *)
 (* a _getNextServer call is good if, whenever the host of the server it returned
    had an unexpired stored policy when the call was made, the returned server has
